@@ -345,7 +345,13 @@ func (f CallableFunctionSchema) Call(arguments []any) (any, error) {
 			), false)
 		}
 	}
-	result := f.Handler.Call(args)
+	var result []reflect.Value
+	if handlerType.IsVariadic() {
+		// The declared parameter of a variadic handler is the list itself, which is what the caller sends.
+		result = f.Handler.CallSlice(args)
+	} else {
+		result = f.Handler.Call(args)
+	}
 	gotReturns := len(result)
 	expectedReturnVals := 0
 	if f.StaticOutputValue != nil || f.DynamicTypeHandler != nil {
